@@ -9,7 +9,14 @@ sys.path.insert(0, HERE)
 import manifest_src as M  # noqa: E402
 
 checks = []
+EVID = os.path.join(os.path.dirname(HERE), 'evidence')
 for pid, d in sorted(M.CLAIMED.items()):
+    # the claimed category is the level the check's own evidence reports on the unchanged tree
+    cat = d.get('category')
+    ev = os.path.join(EVID, f'{pid}.json')
+    if os.path.exists(ev):
+        cat = json.load(open(ev))['level']
+    d['category'] = cat or 'other'
     checks.append({
         'property_id': pid,
         'quick_cmd': f'./check {pid} --tier quick',
